@@ -65,6 +65,8 @@ class Contract:
         self.notes = kw.get("notes", "")
         self.calls_inline = set(kw.get("calls_inline", []))
         self.reveal = set(kw.get("reveal", []))
+        self.emits = kw.get("emits", {})        # ghost events appended at call sites: name -> expr
+        self.scenario = kw.get("scenario", {})  # callee qualname -> clause assumed on its normal return (hypothesis about the environment)
         self._exprs = {}
 
     def expr(self, src):
@@ -161,6 +163,8 @@ class ContractSet:
         if cur is not None and short in cur.reveal:
             return None
         args = [I.resolve(a) for a in args]
+        if info.get("rtype") == "bool":
+            return B.opaque_bool(I, "spec_" + short, args)
         if all(isinstance(a, VInt) and a.c is not None for a in args):
             return None
         if not all(isinstance(a, VInt) and a.fits_bv() for a in args):
@@ -354,9 +358,12 @@ class ContractSet:
                 vals[k] = self.snapshot(I, I.ev(e, fr))
         return vals
 
-    def snapshot(self, I, v):
+    def snapshot(self, I, v, deep_inst=False):
         if isinstance(v, VRef):
             o = I.hobj(v)
+            if deep_inst and o.kind == "inst":
+                n = HObj("inst", o.cls, {k: self.snapshot(I, x) for k, x in o.fields.items()}, meta={"snapshot_of": v.ref})
+                return VRef(I.path.alloc(n))
             if o.kind in ("list", "dict", "set", "symset", "symdict"):
                 n = HObj(o.kind, items=list(o.items), meta={k: (list(x) if isinstance(x, list) else x) for k, x in o.meta.items()})
                 return VRef(I.path.alloc(n))
@@ -610,11 +617,25 @@ class ContractSet:
                     v = I.ev(c.expr(src), sfr)
                     tgt = c.expr(lv)
                     I.assign(tgt, v, sfr)
+                tainted = set()
                 for n, src in c.post_lets.items():
+                    if "events(" in src or any(isinstance(x, ast.Name) and x.id in tainted for x in ast.walk(c.expr(src))):
+                        tainted.add(n)
+                        continue
                     sfr.locals[n] = I.ev(c.expr(src), sfr)
                 for n, src in c.ensures.items():
+                    if "events(" in src or any(isinstance(x, ast.Name) and x.id in tainted for x in ast.walk(c.expr(src))):
+                        continue        # speaks about the callee's own ghost trace; the caller gets the `emits` instead
                     t = self.eval_clause(I, c, src, sfr)
                     P.assume(t.term())
+                for ev_name, src in c.emits.items():
+                    v = self.snapshot(I, I.ev(c.expr(src), sfr), deep_inst=True)
+                    P.ghost.setdefault("events", {}).setdefault(ev_name, []).append(v)
+                cur = self.contracts.get(I.verifying) if I.verifying else None
+                if cur is not None and c.target in cur.scenario:
+                    t = self.eval_clause(I, cur, cur.scenario[c.target], Frame(cur.module, locals={"result": result, **loc}, func="<spec>"))
+                    P.assume(t.term())
+                    P.assumption(f"scenario hypothesis of {cur.target}: after every {c.target.split('.')[-1]} call: {cur.scenario[c.target]}")
                 return result
             q = outcomes[k]
             spec = c.raises[q] if isinstance(c.raises[q], dict) else {}
@@ -686,6 +707,9 @@ class ContractSet:
                 return None
             k = getattr(node, "_pyvc_ord", None)
         lc = c.loops.get(k)
+        if lc is None and "#" in c.target:
+            base = self.contracts.get(c.target.split("#")[0])
+            lc = base.loops.get(k) if base is not None else None
         if lc is None:
             return None
         return (c, k, lc)
@@ -733,6 +757,9 @@ class ContractSet:
         dom = None
         if is_for:
             dom = self.loop_domain(I, it)
+            if dom["n"].c == 0 or (dom["n"].c is None and P.known(dom["n"].as_int() <= 0)):
+                I.exec_block(node.orelse, fr)
+                return
         # ghost initialisation
         for g, src in lc.get("ghost_init", {}).items():
             fr.locals[g] = I.ev(c.expr(src), sfr)
@@ -742,6 +769,7 @@ class ContractSet:
             self.check_clause(I, c, f"{tag}.init.{j}", src, sfr)
         body_names = self.assigned_names(node.body)
         hav_names = [n for n in sorted(body_names) if n in fr.locals] + [g for g in lc.get("ghost_init", {}) if g not in body_names]
+        hav_names += [n for n in lc.get("havoc", {}) if n.isidentifier() and n in fr.locals and n not in hav_names]
         hav_types = lc.get("havoc", {})
         which = P.choose(2, f"loop{k}")
         # havoc
